@@ -27,7 +27,7 @@ import Refine.Gen.CellTables
   * the `metric[2]=0; metric[4]=0; metric[5]=1` blocks → `Matrix.twodM` (`embed2d`)
   * `ref_node_metric_set`, `ref_node_metric_set_log` → `nodeMetricSet`, `nodeMetricSetLog` (the stored pair `(m, log m)`)
   * the combination loop of `ref_metric_interpolate_node` / `_between` / `ref_metric_interpolate` →
-    `logCombine`, `interpolateNode`;  the metric half of `ref_node_interpolate_edge` → `interpolateEdgeMetric`
+    `logCombine`, `interpolateNode`, `interpolateDonor`;  the metric half of `ref_node_interpolate_edge` → `interpolateEdgeMetric`
 -/
 namespace Refine.Model.Metric
 open Refine Refine.Scalar Refine.Model.Matrix
@@ -312,6 +312,18 @@ def errOfSt : Geom.St → Err
 def interpolateNode (nodePer : Nat) (bary : B4 α) (l0 l1 l2 l3 : M6 α) : Except Err (M6 α × M6 α) :=
   match Geom.clipBary4 bary with
   | (Geom.St.ok, w) => nodeMetricSetLog (logCombine nodePer w l0 l1 l2 l3)
+  | (st, _) => .error (errOfSt st)
+
+/-- the donor side of `ref_metric_interpolate` (the parallel field transfer, as repaired in /repo e210980): the four
+    rows are zeroed, the first `node_per` rows are filled with the donors' stored logs, and the loop always runs
+    over four weights: `donor_log_m[im] = 0.0; for (ibary < 4) donor_log_m[im] += bary[ibary] * log_parent_m[ibary][im]`.
+    The receptor clipped its weights (`ref_node_clip_bary4`) before sending them and applies `ref_node_metric_set_log`
+    to what comes back. -/
+def interpolateDonor (nodePer : Nat) (bary : B4 α) (l0 l1 l2 l3 : M6 α) : Except Err (M6 α × M6 α) :=
+  match Geom.clipBary4 bary with
+  | (Geom.St.ok, w) =>
+    let z : M6 α := ⟨zero, zero, zero, zero, zero, zero⟩
+    nodeMetricSetLog (logCombine 4 w l0 l1 l2 (if nodePer == 3 then z else l3))
   | (st, _) => .error (errOfSt st)
 
 /-- the log-Euclidean interpolant itself, `exp_m (Σ w_i · log_i)` -/
